@@ -175,7 +175,7 @@ class BooleanOperationsMixin:
 
         for p in paths:
             newpath = []
-            for scaledstart, scaledend in pairwise(p):
+            for scaledstart, scaledend in pairwise(list(p) + [p[0]]):
                 key = (Point(*scaledstart), Point(*scaledend))
                 if key in reconstructionLUT and not flat:
                     orig = reconstructionLUT[key]
